@@ -18,6 +18,7 @@ import (
 	"github.com/sirupsen/logrus"
 
 	"verif/ev"
+	"verif/fault"
 )
 
 // ---------------------------------------------------------------------------------------------------------
@@ -277,6 +278,10 @@ type vc07Bounds struct {
 	// pair can be searched as six independent jobs (each de-duplicates within itself).
 	FirstFault string
 	Budget     int // fault events per history
+	// KVFaults: storage faults are part of the fault alphabet (kvfail on deliveries, cfail on creations; class "kvfail@node" of
+	// the first fault). KVReads: read steps (Read / ReadShelf calls of the handler) can fail too, not only write-transaction steps.
+	KVFaults bool
+	KVReads  bool
 	PoolTick   int // tick(n) is enabled while fewer than this many original messages are in flight (bounds delay)
 	MaxDepth   int
 	Rmax       int
@@ -390,7 +395,11 @@ func vc07Sig(kind, clause string, hist []vc07Event) string {
 	kinds := map[string]bool{}
 	for _, e := range hist {
 		if e.fault() {
-			kinds[e.K] = true
+			if e.L != "" {
+				kinds[e.K+"("+e.L+")"] = true // storage faults: which step failed (structural label, no counters)
+			} else {
+				kinds[e.K] = true
+			}
 		}
 	}
 	var ks []string
@@ -431,7 +440,11 @@ func vc07Prepare(t testing.TB, dir string, pair vc07Pair) *vc07Setup {
 }
 
 func (s *vc07Setup) build(t testing.TB, dir string, hist []vc07Event) *vc07World {
-	w := vc07Build(t, dir, s.u, s.tpl, s.late)
+	var opts vc07BuildOpts
+	if len(hist) > 0 && hist[0].K == "cfail" {
+		opts.createFault, hist = &hist[0], hist[1:]
+	}
+	w := vc07BuildOpt(t, dir, s.u, s.tpl, s.late, opts)
 	for i, e := range hist {
 		if !w.apply(e) {
 			t.Fatalf("replay mismatch at step %d (%+v) of %s: event does not exist — replay is not deterministic", i, e, s.pair)
@@ -463,6 +476,9 @@ func (s *vc07Searcher) searchPair(pair vc07Pair) {
 		defer func() { w.light = false }()
 		if clause, detail := w.safety(); clause != "" {
 			r.Violation(vc07Sig("small", "safety-"+clause, hist), detail, vc07Replay{Pair: pair, Hist: hist})
+		}
+		if w.buildClause != "" && len(hist) == 1 {
+			r.Violation(vc07Sig("small", "safety-"+w.buildClause+"-after-failed-creation", hist), w.buildDetail, vc07Replay{Pair: pair, Hist: hist})
 		}
 		key := sha256.Sum256([]byte(w.canon()))
 		if seen[key] {
@@ -504,11 +520,51 @@ func (s *vc07Searcher) searchPair(pair vc07Pair) {
 		return node, true
 	}
 
+	// kvSteps lists the steps of a recorded KV trace at which a storage error is enumerated
+	kvSteps := func(trace []fault.Step) []fault.Step {
+		var out []fault.Step
+		for _, st := range trace {
+			if !fault.Applicable(st.Kind, fault.Error) || (st.Kind == fault.ReadOp && !s.b.KVReads) {
+				continue
+			}
+			out = append(out, st)
+		}
+		return out
+	}
+	kvClass := func(faultsSoFar, node int) bool {
+		return s.b.KVFaults && faultsSoFar < s.b.Budget && (faultsSoFar > 0 || s.b.FirstFault == "" || s.b.FirstFault == fmt.Sprintf("kvfail@%d", node))
+	}
+
 	w := set.build(s.t, s.dir, nil)
 	w.outcome = outcome
 	root, _ := visit(w, nil)
+	createTraces := w.createTraces
 	w.close()
 	frontier := []vc07QNode{root}
+	// storage faults on LOCAL CREATION: every created transaction x every failable KV step of its State.Add; the creation is
+	// repeated at once (these are alternative start states: with a correct roll-back they coincide with the root)
+	for n := 0; n < 2; n++ {
+		if !kvClass(0, n) {
+			continue
+		}
+		for j, trace := range createTraces[n] {
+			for _, st := range kvSteps(trace) {
+				if r.Expired() {
+					return
+				}
+				h := []vc07Event{{K: "cfail", N: n, M: j, At: st.N, L: st.Label()}}
+				w := set.build(s.t, s.dir, h)
+				w.outcome = outcome
+				s.trans++
+				r.Outcome("creation-fault:" + st.Label())
+				node, fresh := visit(w, h)
+				w.close()
+				if fresh {
+					frontier = append(frontier, node)
+				}
+			}
+		}
+	}
 	for depth := 1; len(frontier) > 0; depth++ {
 		if depth > s.b.MaxDepth {
 			r.NotExhaustive(fmt.Sprintf("depth bound %d reached with a non-empty frontier", s.b.MaxDepth))
@@ -521,17 +577,46 @@ func (s *vc07Searcher) searchPair(pair vc07Pair) {
 			}
 			selfLoopOnly := true
 			succ := map[[32]byte]bool{}
-			for _, e := range q.enabled {
+			evs := q.enabled
+			for ei := 0; ei < len(evs); ei++ {
+				e := evs[ei]
 				nh := vc07Hist(q.hist, e)
 				w := set.build(s.t, s.dir, q.hist)
 				w.outcome = outcome
+				faultsBefore, to := w.faults, -1
+				if e.K == "deliver" || e.K == "stale" {
+					if _, m := w.find(e.M, w.pool); m != nil {
+						to = m.To
+					}
+				}
 				if !w.apply(e) {
 					s.t.Fatalf("enabled event %+v vanished on replay of %s", e, pair)
+				}
+				if e.K == "kvfail" {
+					if !w.lastFired {
+						// the step of the fault-free trace did not occur on this replay: the storage steps of a handler are expected
+						// to be deterministic; never an alarm
+						r.NotExhaustive("a storage step of the fault-free trace did not occur when the delivery was replayed with the fault armed")
+						w.close()
+						continue
+					}
+					r.Outcome("storage-fault:" + w.lastStep.Label() + ":" + w.lastErr)
+				}
+				if to >= 0 && kvClass(faultsBefore, to) {
+					// storage faults as environment deviations: the same delivery again with the k-th KV step of the handler failing,
+					// for every failable step k of the trace just recorded
+					cp := append([]vc07Event{}, evs...)
+					for _, st := range kvSteps(w.lastTrace) {
+						cp = append(cp, vc07Event{K: "kvfail", M: e.M, At: st.N, L: st.Label()})
+					}
+					evs = cp
 				}
 				s.trans++
 				node, fresh := visit(w, nh)
 				w.close()
-				succ[node.key] = true
+				if e.K != "kvfail" { // the conformance pass below re-derives successors from enabled(), which does not list storage faults
+					succ[node.key] = true
+				}
 				if !e.fault() && node.key != q.key {
 					selfLoopOnly = false
 				}
@@ -616,7 +701,10 @@ func TestVerifC07Small(t *testing.T) {
 	}
 	defer os.RemoveAll(dir)
 
-	b := vc07Bounds{Budget: 1, PoolTick: 2, MaxDepth: 80, Rmax: 16}
+	b := vc07Bounds{Budget: 1, PoolTick: 2, MaxDepth: 80, Rmax: 16, KVFaults: true, KVReads: true}
+	if v := os.Getenv("VERIF_C07_KVREADS"); v != "" {
+		b.KVReads = v == "1"
+	}
 	maxUnion := 4
 	// fault budget per pair. "two-way": both sides hold transactions the other lacks (two crossing reconciliations: the
 	// state graph with one fault has ~45 000 transitions per pair against ~5 000 for a one-way pair).
@@ -727,13 +815,13 @@ func TestVerifC07Small(t *testing.T) {
 	est := func(twoWay, queued bool, kind string, node int) int {
 		switch {
 		case twoWay && !queued:
-			return map[string]int{"drop": 11800, "dup": 17500, "lexpire": 4300, "disc": 25500}[kind]
+			return map[string]int{"drop": 11800, "dup": 17500, "lexpire": 4300, "disc": 25500, "kvfail": 12000}[kind]
 		case twoWay:
-			return map[string]int{"drop": 6500, "dup": 7200, "lexpire": 2400, "disc": 14000}[kind]
+			return map[string]int{"drop": 6500, "dup": 7200, "lexpire": 2400, "disc": 14000, "kvfail": 7000}[kind]
 		case !queued:
-			return map[string]int{"drop": 1440, "dup": 1810 + 570*(node%2), "lexpire": 720, "disc": 2800}[kind]
+			return map[string]int{"drop": 1440, "dup": 1810 + 570*(node%2), "lexpire": 720, "disc": 2800, "kvfail": 1500}[kind]
 		}
-		return map[string]int{"drop": 1040 - 200*(node%2), "dup": 1190 + 180*(node%2), "lexpire": 540 - 120*(node%2), "disc": 1900}[kind]
+		return map[string]int{"drop": 1040 - 200*(node%2), "dup": 1190 + 180*(node%2), "lexpire": 540 - 120*(node%2), "disc": 1900, "kvfail": 1100}[kind]
 	}
 	for i, p := range pairs {
 		bud := budgetFor(p)
@@ -749,7 +837,7 @@ func TestVerifC07Small(t *testing.T) {
 			jobs = append(jobs, job{pair: i, budget: bud, cost: c})
 		default:
 			symmetric := vc07Symmetric(p.Shape, p.A, p.B)
-			for _, k := range []string{"drop", "dup", "lexpire", "disc"} {
+			for _, k := range []string{"drop", "dup", "lexpire", "disc", "kvfail"} {
 				for n := 0; n < 3; n++ {
 					if n == 2 && k != "disc" {
 						continue
@@ -866,9 +954,20 @@ func TestVerifC07Small(t *testing.T) {
 // vc07ReplayCase re-executes one recorded history without the explorer and judges it with the same oracles.
 func vc07ReplayCase(t *testing.T, r *ev.Run, dir string, rc vc07Replay, b vc07Bounds) {
 	set := vc07Prepare(t, dir, rc.Pair)
-	w := set.build(t, dir, nil)
+	pre := 0
+	if len(rc.Hist) > 0 && rc.Hist[0].K == "cfail" {
+		pre = 1
+	}
+	w := set.build(t, dir, rc.Hist[:pre])
 	defer w.close()
+	if w.buildClause != "" {
+		t.Logf("after the failed creation: %s: %s", w.buildClause, w.buildDetail)
+		r.Violation(vc07Sig("small", "safety-"+w.buildClause+"-after-failed-creation", rc.Hist[:pre]), w.buildDetail, rc)
+	}
 	for i, e := range rc.Hist {
+		if i < pre {
+			continue
+		}
 		if !w.apply(e) {
 			t.Fatalf("replay: event %d %+v does not exist", i, e)
 		}
